@@ -235,6 +235,8 @@ func wfObserve(u *U, site string, desc func() string, v cty.Value) {
 var c06Extras []func(c *Ctx)
 
 func runC06(c *Ctx) {
+	// history clause first, so that each worker process meets it in its initial state
+	histFamily(c, "retained values stay well-formed", c06HistoryOps)
 	// (1) constructors
 	c06Constructors(c)
 	// (2) operation methods, one-position weakenings
